@@ -9,6 +9,7 @@ use std::sync::{Arc, Mutex};
 
 pub fn swarm() -> Swarm {
     Swarm {
+        alloc_modes: true,
         est_len: 500,
         max_steps: 200_000,
         ..Default::default()
